@@ -19,6 +19,7 @@ ASSUMPTIONS = [
     "StubDatabase, DetLoop (bounded interleaving exploration through the solver: each path is one schedule; schedules that differ only after the K-th choice point are not distinguished), utils.random_name replaced by a counter",
     "graphs: 2-transformer chain; scatter->transformer->gather; two scattered inputs joined by a dot-product combinator, summed and gathered; conditional step with a skip port; two independent branches with two workflow outputs; a two-input transformer fed with the same tags in different orders; a scattered input joined with two plain (broadcast) inputs; scatter->ScheduleStep->ExecuteStep->gather on the real DefaultScheduler with a slot-limited stub connector (ScheduleStep._set_job_directories and the data manager are stubbed: no file system)",
     "at most one injected fault (a transformer raising, or the command of job .0 returning FAILED); DummyFailureManager-like failure manager (recover re-raises); loops are covered at step level by C06, not here; <= 3 list elements",
+    "execstep_* obligations: the real ExecuteStep alone with pre-scheduled jobs, a stub command and a stub scheduler whose notify_status takes a solver-chosen number of scheduling steps (lock contention / storage measurement in the real one)",
     "job commands complete only when the harness releases them, in a solver-chosen order; once an injected fault has fired, jobs still running are never released (long-running jobs): the engine has to cancel them",
 ]
 T = (
@@ -142,6 +143,22 @@ def gen(prop, oracle, tier):
             f"scatter a list of {n}, dot product with two non-scattered inputs, sum, gather",
             Kx=2 if quick else 3,
         )
+    if oracle == "terminate":
+        # the real ExecuteStep alone, against a scheduler whose notifications take a solver-chosen time
+        for n in (3,) if quick else (2, 3, 4):
+            for fj in range(n if not quick else 1):
+                out.append(
+                    Spec(
+                        name=f"execstep_n{n}_fail{fj}",
+                        group=f"{prop}: ExecuteStep terminates after a job failure whatever the duration of the scheduler notifications",
+                        source=mk_source(IMPORTS, "dfail: int, dnot: int, dnot0: int", ["0 <= dfail <= 8", "0 <= dnot <= 8", "0 <= dnot0 <= 4"], f"prop_execute_step({n}, dfail, dnot, dnot0, {fj})"),
+                        cond=big,
+                        path=120,
+                        bound=f"{n} concurrent jobs: job {fj} fails after dfail (0..8) scheduling steps, the next job completes at once and its COMPLETED notification takes dnot (0..8) steps, the FAILED notification dnot0 (0..4) steps, the other jobs are long-running (60 steps); stub scheduler (notifications only), stub command",
+                        symbolic="3 durations",
+                        targets=("streamflow.workflow.step.ExecuteStep.run", "streamflow.workflow.step.ExecuteStep._run_job", "streamflow.workflow.step.ExecuteStep._execute_command", "streamflow.workflow.step.ExecuteStep._check_inputs", "streamflow.core.recovery.recoverable", "streamflow.workflow.step.BaseStep.terminate"),
+                    )
+                )
     return out
 
 
